@@ -106,6 +106,9 @@ func DrawSimCase(ch Chooser, prop string) *SimCase {
 		// swarm: the thorough tier mixes the usual sizes with larger programs
 		c.Opts.Scale = ch.Intn(2)
 	}
+	if prop == "C14" {
+		c.Opts.DistinctLabels = ch.Intn(3) == 1
+	}
 	if prop == "C02" {
 		c.Opts.MainStructured = ch.Intn(2) == 1
 		// second profile: unconsumed roots may contain servers nobody calls; the oracle then
@@ -315,6 +318,13 @@ func evalRun(c *SimCase, idx int, cfg sim.Config, res *sim.Result, ri refInfo, i
 			}
 		}
 		return vs
+	}
+	if len(res.Errors) > 0 && ri.ok && (polar || c.Prog.ContractionFree()) {
+		// a run that ends in interpreter errors is C01's business first, but what it printed is
+		// also C04's: a different multiset is not "the labels the semantics produces"
+		if got := res.PrintMultiset(); !eqStrings(got, ri.labels) {
+			add("C04", "multiset", fmt.Sprintf("%s printed %v, semantics prints %v (the run ended with %d interpreter error(s): %s)", modeName[cfg.Mode], got, ri.labels, len(res.Errors), trunc(res.Errors[0].Msg, 120)), "")
+		}
 	}
 	if len(res.Errors) > 0 || res.QuiescentAt < 0 {
 		return vs
